@@ -41,6 +41,69 @@ SKIP_W = "webauthn::deserialize_from_str_and_skip_if_too_long"
 TRUNCATE = "webauthn::truncate"
 FLOOR = "webauthn::floor_char_boundary"
 PRED = "webauthn::is_utf8_char_boundary"
+DEFAULT_NAMES = (TRUNC_W, SKIP_W, TRUNCATE, FLOOR, PRED)
+
+
+def names(F):
+    """(truncating wrapper, skipping wrapper, truncate, floor, boundary predicate) identified by their *role*: the wrappers are the
+    `deserialize_with` functions of user.name / user.icon, truncate is the String-returning /repo function the truncating wrapper
+    applies, floor the usize-returning /repo function truncate calls, the predicate the u8 -> bool /repo function floor calls.
+    Renaming or moving these private helpers does not change their role; the defaults are today's names."""
+    cached = getattr(F, "_c13_names", None)
+    if cached is not None:
+        return cached
+    trunc_w, skip_w, trunc, floor, pred = DEFAULT_NAMES
+    try:
+        tab = W.decode_table(F, "webauthn::PublicKeyCredentialUserEntity")
+    except T.Unreadable:
+        tab = None
+    by = {m["field"]: (m.get("with") or {}).get("fn") for m in (tab or {"members": []})["members"]}
+    if by.get("name") and F.fn(by["name"]) is not None:
+        trunc_w = by["name"]
+    if by.get("icon") and F.fn(by["icon"]) is not None:
+        skip_w = by["icon"]
+
+    def callees(fn):
+        out = []
+        for x in H.walk(fn["body"]):
+            c = None
+            if x.get("k") in ("call", "mcall"):
+                c = x.get("resolved") or x.get("callee")
+            elif x.get("k") == "path" and x["res"].get("rk") in ("Fn", "AssocFn"):
+                c = x["res"].get("path")
+            g = F.fns_by_path.get(c or "", [])
+            if len(g) == 1 and (g[0].get("pv") or "user") == "user" and g[0] not in out:
+                out.append(g[0])
+        return out
+
+    def closure_of(fn, depth=2):
+        seen, todo = [], [(fn, 0)]
+        while todo:
+            g, d = todo.pop(0)
+            for h in callees(g):
+                if h not in seen and h is not fn:
+                    seen.append(h)
+                    if d + 1 < depth:
+                        todo.append((h, d + 1))
+        return seen
+
+    tw = F.fn(trunc_w)
+    if tw is not None:
+        c = [g for g in closure_of(tw) if (g.get("output") or "").startswith("heapless::string::String<") and len(g.get("inputs") or []) == 1]
+        if len(c) >= 1:
+            trunc = c[0]["path"]
+    tf = F.fn(trunc)
+    if tf is not None:
+        c = [g for g in closure_of(tf) if g.get("output") == "usize" and (g.get("inputs") or [])[:1] == ["&str"]]
+        if len(c) >= 1:
+            floor = c[0]["path"]
+    ff = F.fn(floor)
+    if ff is not None:
+        c = [g for g in closure_of(ff) if g.get("output") == "bool" and g.get("inputs") == ["u8"]]
+        if len(c) >= 1:
+            pred = c[0]["path"]
+    F._c13_names = (trunc_w, skip_w, trunc, floor, pred)
+    return F._c13_names
 DESER = "serde_core::de::Deserialize::deserialize"
 ARITH = ("+", "-", "*", "/", "%", "<<", ">>")
 PANICKY = {"core::option::Option::<T>::unwrap", "core::option::Option::<T>::expect", "core::result::Result::<T, E>::unwrap", "core::result::Result::<T, E>::expect",
@@ -143,6 +206,7 @@ def _range_bounds(r):
 
 
 def check_floor(ctx, F, cfg):
+    TRUNC_W, SKIP_W, TRUNCATE, FLOOR, PRED = names(F)
     """template `floor` on the path summaries of floor_char_boundary: returns (ok, covered) where covered maps the spans of the
     panic-capable constructs the template accounts for to the reason"""
     fn = F.fn(FLOOR)
@@ -293,6 +357,7 @@ def check_floor(ctx, F, cfg):
 
 
 def check_truncate(ctx, F, cfg, floor_present):
+    TRUNC_W, SKIP_W, TRUNCATE, FLOOR, PRED = names(F)
     """truncate::<L>: pushes exactly s[..floor(s, L)] into a fresh String<L> and returns it; returns (ok, covered spans)"""
     fn = F.fn(TRUNCATE)
     covered = {}
@@ -374,6 +439,7 @@ def inner_error_only(sym, paths, D):
 
 
 def check_skip(ctx, F, cfg, fn):
+    TRUNC_W, SKIP_W, TRUNCATE, FLOOR, PRED = names(F)
     """skip_if_too_long: Err only from decoding the text; Ok(Some(<fresh String<L> holding exactly the decoded text>)) when it
     fits; Ok(None) when it does not; a length pre-check is accepted only as `len > L`"""
     PUSH = "heapless::string::String::<N>::push_str"
@@ -451,6 +517,7 @@ def check_skip(ctx, F, cfg, fn):
 
 
 def check_trunc_wrapper(ctx, F, cfg, fn):
+    TRUNC_W, SKIP_W, TRUNCATE, FLOOR, PRED = names(F)
     """Ok(None) for an absent text, Ok(Some(truncate::<L>(text))) for a present one, Err only from the inner decoder"""
     try:
         sym, paths = wrapper_paths(F, fn, opaque=(TRUNCATE,))
@@ -521,9 +588,12 @@ def run(ctx):
     ctx.trusted = ["core::str::from_utf8 (input text is valid UTF-8 when it reaches these functions: serde's &str decoding in cbor-smol)", "heapless 0.7.17 String::push_str / TryFrom<&str>",
                    "UTF-8: at most 3 consecutive continuation bytes, text starts on a boundary"]
     ctx.assumptions = ["the paper argument in DESIGN.md section 5/C13 linking the slot conditions to the longest-prefix property"]
-    want_wiring = {("webauthn::PublicKeyCredentialRpEntity", "name"): (TRUNC_W, 64), ("webauthn::PublicKeyCredentialUserEntity", "name"): (TRUNC_W, 64),
-                   ("webauthn::PublicKeyCredentialUserEntity", "display_name"): (TRUNC_W, 64), ("webauthn::PublicKeyCredentialUserEntity", "icon"): (SKIP_W, 128)}
     for cfg, F in ctx.facts.items():
+        TRUNC_W, SKIP_W, TRUNCATE, FLOOR, PRED = names(F)
+        ctx.extra.setdefault("helper_roles", {})[cfg] = {"truncating wrapper": TRUNC_W, "skipping wrapper": SKIP_W, "truncate": TRUNCATE, "floor": FLOOR, "boundary predicate": PRED}
+        want_wiring = {("webauthn::PublicKeyCredentialRpEntity", "name"): (TRUNC_W, 64), ("webauthn::PublicKeyCredentialUserEntity", "name"): (TRUNC_W, 64),
+                       ("webauthn::PublicKeyCredentialUserEntity", "display_name"): (TRUNC_W, 64), ("webauthn::PublicKeyCredentialUserEntity", "icon"): (SKIP_W, 128)}
+        ctx.oblige("C13|wiring|distinct-decoders", TRUNC_W != SKIP_W, "names and icon are decoded by the same lossy decoder (%s): one of truncate / drop semantics is lost" % TRUNC_W, cfg=cfg)
         # ---- wiring
         n_w = 0
         for (path, field), (wfn, cap) in want_wiring.items():
